@@ -32,7 +32,8 @@ MANIFEST = {
             "classes of the regenerated tables that pass closed_ok: 116 of 123, plain JSON input); strict_custom_free_partial: "
             "the object a strict constructor returns is custom-free at every depth in the typed sense of Spec/CustomFree.v "
             "(members are class properties, hash names from the vocabulary, references to registered non-x- types, nested "
-            "objects custom-free in turn), and in either mode an unflagged object is; refuted-variant witnesses on "
+            "objects custom-free in turn), and in either mode an unflagged object is; both also at stix2.parse level for the 86 "
+            "parse entry points (flag_iff_strict_reparse_parse_partial, strict_custom_free_parse_partial); refuted-variant witnesses on "
             "the generated tables. Model tied to /repo by regenerated class tables and a correspondence run (flag + strict "
             "reparse outcome); the property itself is evaluated on the real library with custom content injected at every "
             "nesting site of generated objects of every class.",
@@ -152,6 +153,22 @@ def injections(gen, cid, o):
             if r.random() < 0.25:
                 mut(lambda x: at(x, path).__setitem__("custom_properties", {"x_via_loophole": 1}),
                     "custom_properties key at %s (%s)" % (ps, ex["cid"]), True)
+            if not path and "/<" not in ex["cid"]:
+                # a specification-defined property handed over inside the constructor's custom_properties= argument:
+                # it is cleaned and written like any other property -- nothing custom about the object
+                try:
+                    o2 = gen.obj(ex["cid"], optional_p=1.0)
+                except (IndexError, ValueError, KeyError):
+                    o2 = {}
+                names = {s0["name"] for s0 in gen.classes[ex["cid"]]["slots"]}
+                cand = [k for k in o2 if k in names and k not in o and k not in ("type", "id", "extensions", "granular_markings",
+                                                                                   "object_marking_refs", "created_by_ref")
+                        and not k.endswith("_ref") and not k.endswith("_refs")]
+                if cand:
+                    pick = r.sample(cand, min(2, len(cand)))
+                    mut(lambda x: x.__setitem__("custom_properties", {k: o2[k] for k in pick}),
+                        "specification-defined properties %s inside custom_properties= at <top> (%s)" % ("+".join(pick), ex["cid"]),
+                        False, {"force_route": "construct", "requested": True})
             if path and "/<" not in ex["cid"]:
                 # the nested value given as a library OBJECT built beforehand under allow_custom=True (constructor route)
                 pre = {"prebuilt": [{"path": list(path), "cid": ex["cid"]}]}
@@ -271,7 +288,7 @@ def correspondence(run, cases, variants):
     """flag of the allow-mode (and strict) run + strict reparse outcome: model against the library"""
     ccases = []
     for c in cases:
-        if not isinstance(c["data"].get("type", ""), str) or c.get("prebuilt"):
+        if not isinstance(c["data"].get("type", ""), str) or c.get("prebuilt") or c["route"] == "parse_observable":
             continue
         for allow in ((True, False) if c.get("custom") else (True,)):
             ccases.append({"op": "parse" if c["route"] == "parse" else "construct", "cid": c["cid"], "data": c["data"],
@@ -333,6 +350,8 @@ def gen_cases(run, per_class):
             if cl["family"] == "sco" and cl["ver"] == "2.1" and "id" not in o and "spec_version" not in o:
                 o["spec_version"] = "2.1"
             route = "parse" if r.random() < 0.6 else "construct"
+            if cl["family"] == "sco" and r.random() < 0.3:
+                route = "parse_observable"          # the entry point for a single observable (version named)
             cases.append({"route": route, "cid": cid, "data": o, "custom": False, "site": "uninjected"})
             inj = injections(gen, cid, o)
             # every site once for the first objects of a class, a sample afterwards
@@ -341,16 +360,19 @@ def gen_cases(run, per_class):
                 site, custom, x = tup[:3]
                 extra = tup[3] if len(tup) > 3 else {}
                 rt = route if r.random() < 0.8 else ("construct" if route == "parse" else "parse")
-                if extra.get("prebuilt"):
+                if route == "parse_observable" and r.random() < 0.8:
+                    rt = "parse_observable"
+                if extra.get("prebuilt") or extra.get("force_route") == "construct":
                     rt = "construct"
                 if rt == "construct" and site.startswith("custom_properties key at <top>"):
                     custom = False      # the constructor's custom_properties= argument is itself the request
-                cs = dict({"route": rt, "cid": cid, "data": x, "custom": custom, "site": site}, **extra)
+                cs = dict({"route": rt, "cid": cid, "data": x, "custom": custom, "site": site},
+                          **{k0: v0 for k0, v0 in extra.items() if k0 != "force_route"})
                 if rt == "construct" and site.startswith("custom_properties key at <top>"):
                     cs["requested"] = True
                 cases.append(cs)
                 key = site.split(" at ")[0]
-                for w in ("pre-built instance carrying", "pre-built instance without", "custom property inside", "custom property given as null", "custom property in registered", "custom property", "hash algorithm",
+                for w in ("specification-defined properties", "pre-built instance carrying", "pre-built instance without", "custom property inside", "custom property given as null", "custom property in registered", "custom property", "hash algorithm",
                           "only hash algorithm", "recognised hash algorithm", "reference to custom type",
                           "reference to registered custom type", "reference to registered type", "unregistered extension type"):
                     if key.startswith(w):
@@ -386,6 +408,60 @@ def gen_cases(run, per_class):
         if ver == "2.1":
             d["spec_version"] = "2.1"
         cases.append({"route": "parse", "cid": ver + "/<unregistered>", "data": d, "custom": True, "site": "unregistered top-level object type"})
+    # (c) an unregistered top-level type carrying `extensions` of every shape: only an extension-definition that
+    #     declares a new object type lets the dictionary through a strict parse
+    shapes = [
+        ("type-name-keyed extension without extension_type", {"x-foo-ext": {"a": 1}}, True),
+        ("type-name-keyed extension declaring new-sdo", {"some-ext": {"extension_type": "new-sdo"}}, True),
+        ("type-name-keyed property-extension", {"some-ext": {"extension_type": "property-extension", "a": 1}}, True),
+        ("type-name-keyed extension that is not a dictionary", {"x-foo-ext": "text"}, True),
+        ("extension-definition that is not a dictionary", {"extension-definition--" + U1: "text"}, True),
+        ("extension-definition property-extension only", {"extension-definition--" + U1: {"extension_type": "property-extension", "a": 1}}, True),
+        ("extension-definition toplevel-property-extension only",
+         {"extension-definition--" + U1: {"extension_type": "toplevel-property-extension"}}, True),
+        ("empty extensions", {}, True),
+        ("extension-definition declaring new-sdo", {"extension-definition--" + U1: {"extension_type": "new-sdo"}}, False),
+    ]
+    for ver in ("2.0", "2.1"):
+        for what, ext, custom in shapes:
+            d = {"type": "x-unregistered-type", "id": "x-unregistered-type--" + U1, "created": "2016-01-01T00:00:00.000Z",
+                 "modified": "2016-01-01T00:00:00.000Z", "name": "n", "extensions": ext}
+            if ver == "2.1":
+                d["spec_version"] = "2.1"
+            cases.append({"route": "parse", "cid": ver + "/<unregistered>", "data": d, "custom": custom,
+                          "site": "unregistered top-level object type with " + what})
+            # ... and the same object as a bundle member
+            b = {"type": "bundle", "id": "bundle--" + U1, "objects": [dict(d)]}
+            if ver == "2.0":
+                b["spec_version"] = "2.0"
+            cases.append({"route": "parse", "cid": ver + "/Bundle", "data": b, "custom": custom,
+                          "site": "bundle member of an unregistered object type with " + what})
+    # (e) observable types that are looked up before they are registered, against a type registered up front
+    for i in range(6 if run.tier != "thorough" else 24):
+        ver = r.choice(["2.0", "2.1"])
+        t = "x-late-observable-%s-%04d" % (ver.replace(".", ""), r.randrange(10000))
+        member = {"type": t, "value": "v%d" % i}
+        if ver == "2.1":
+            member["id"] = t + "--" + gen.uuid(5)
+        ctl_member = dict(member, type="x-registered-observable")
+        if "id" in ctl_member:
+            ctl_member["id"] = "x-registered-observable--" + ctl_member["id"].split("--", 1)[1]
+        late = {"type": t, "ver": ver, "probe": dict(member)}
+        form = r.choice(["parse_observable", "parse", "member"] if ver == "2.0" else ["parse_observable", "parse"])
+        if form == "member":
+            od = lambda m: {"type": "observed-data", "id": "observed-data--" + U1, "created": "2016-01-01T00:00:00.000Z",
+                            "modified": "2016-01-01T00:00:00.000Z", "first_observed": "2016-01-01T00:00:00Z",
+                            "last_observed": "2016-01-01T00:00:00Z", "number_observed": 1, "objects": {"0": m}}
+            cs = {"route": "parse", "cid": "2.0/ObservedData", "data": od(member), "custom": False,
+                  "site": "late-registered observable type as observed-data member"}
+            ctl = dict(cs, data=od(ctl_member), site="control")
+        else:
+            cs = {"route": form, "cid": ver + "/<late-observable>", "data": member, "custom": False,
+                  "site": "late-registered observable type through " + form}
+            ctl = dict(cs, data=ctl_member, site="control")
+        cs["late"] = late
+        cs["control"] = ctl
+        cases.append(cs)
     return cases, site_hist
 
 
